@@ -638,6 +638,10 @@ def run_edits(prop, tier, seed, *, case_filter=None):
                 continue
             wrapper, content = doc_id.split("/")
             sig = coarse_signature(sym, op, path, text, wrapper, content) or f"{sym}|{op} {path}|content={content}|wrapper={wrapper}"
+            if op == "set" and value and value.rstrip().endswith("# c") and "syntax-error" in sym and content in ("inline", "empty", "twins-inline"):
+                # one root cause, whatever the path: the value's trailing line comment is written in front of the closing brace of a
+                # set that is rendered on one line
+                sig = f"{sym}|a value ending in a line comment written into a one-line set comments out the closing brace"
             if sig not in by_sig:
                 by_sig[sig] = dict(check="edits", signature=sig, what=f"{prop} {sym}: {op} {path!r} {value!r} on {doc_id}",
                                    inputs={"text": text, "op": op, "path": path, "value": value}, has_input=True,
